@@ -89,6 +89,8 @@ def make_work(rng, tier):
                         runs2.append((q, {"partitions": rng.choice([1, 2]), "batch_size": rng.choice([2, 2048]), "enable_hash_joins": hj}))
         work.append({"id": "c03-hjx-%d" % i, "tables": tables2, "runs": runs2, "mode": "det", "det_partitions": 1,
                      "sched": {"kind": "fifo", "seed": 1}})
+    from . import sqlfam
+    work += sqlfam.limit_offset_family(rng, 3 if tier == 'quick' else 15, 'c03')
     return work
 
 
